@@ -8,6 +8,7 @@ import l1_corr
 import l1_stream
 import c06_sameaddr
 import c06_race
+import c06_wfault
 
 LEVEL = "proof"
 EXTRA_TARGETS = ["nxdrv_C02"]
@@ -211,6 +212,17 @@ def work(args):
             sess = ps.run_session(cfg, seed & 0xFFFF, c06_race.script_of(c, rng), lambda sim, r: (lambda tx: [0.004]), cfg_s=cfgs,
                                   setup=c06_race.setup_of(c), phases_gap=0.25, max_time=40.0)
             bad = c06_race.oracle(sess, c)
+            return idx, kind, repr(c), repr(s), seed, bad, sess, None
+        if kind == "wfault":
+            # a write fault at exactly the k-th transport write of one side (handshake writes first of all)
+            cfg, cfgs = c06_wfault.cfgs(c)
+            sess = ps.run_session(cfg, seed & 0xFFFF, c06_wfault.script_of(c, rng), lambda sim, r: (lambda tx: [0.004]), cfg_s=cfgs,
+                                  setup=c06_wfault.setup_of(c), phases_gap=0.25, max_time=40.0)
+            bad = c06_wfault.oracle(sess, c)
+            sess.c06_tags = c06_wfault.tags(sess, c)
+            sess.c06_replay = c06_wfault.replayable(c)
+            if getattr(sess, "wfault", None):
+                sess.wfault["streams"] = []         # live objects: observation only, not part of the record
             return idx, kind, repr(c), repr(s), seed, bad, sess, None
         if kind == "grid":
             (cm, cs_, cf), (sm, ss_, sf) = c, s
@@ -423,6 +435,9 @@ def cases(rng, quick):
     # crafted acks arriving while the SYN / CONNECT is outstanding (ahead of / behind / instead of the genuine ack, silent server)
     for spec in c06_race.specs(rng, quick):
         out.append(("race", spec, None))
+    # a write fault at exactly the k-th transport write of the client / the server, every k of the handshake and a few beyond
+    for spec in c06_wfault.specs(rng, quick):
+        out.append(("wfault", spec, None))
     for k in ["syn-identity", "con-identity", "syn-sub+1", "syn-minor+1", "syn-extra-bit", "con-sub-1", "con-minor-1", "con-minor+1", "con-mask"]:
         out.append(("crafted", k, None))
     return out
@@ -439,7 +454,11 @@ def run(ctx):
                 "one after another from the SAME (ip, port) on one long-lived server (version 2, also 0 and 1 with incompatible visitors in between; visits whose CONNECTs are all lost; a few visits from other addresses), the server transport replayed through the L1 model; "
                 "correctly signed SYN acks exceeding the offer (19 combinations) / CONNECT acks contradicting the agreement (26) arriving WHILE the SYN / CONNECT is outstanding: "
                 "1..3 copies ahead of the genuine ack, behind it, in place of its lost first copy, or from a server that then falls silent, over udp and lite, resend_limit 0..3 "
-                "(the handshake completes with min/min/AND and working substreams, or fails with the connection error within (resend_limit+1)*resend_timeout - never half-open); each UDP session is replayed through the Lean L1 model (every datagram byte- and "
+                "(the handshake completes with min/min/AND and working substreams, or fails with the connection error within (resend_limit+1)*resend_timeout - never half-open); write faults at exactly the k-th transport write of the client / the server (k = 1..5 in quick, up to 9 in thorough; SYN, CONNECT, SYN ack, CONNECT ack "
+                "and the first packets after the handshake): a udp socket raising Broken/ClosedResourceError (server also OSError) at that write only or from it on, "
+                "for v0/v1 clients at v0/v1/dual-stack servers; a lite connection reset at that write or closed by the peer right after it; oracle: connect() returns only if at that instant the server "
+                "holds the connection and both ends report min/min/AND, otherwise it fails cleanly within the retransmission budget, a transient fault of the server's answers is healed by retransmission, and a send() begun after "
+                "a connection's write failed raises; each UDP session is replayed through the Lean L1 model (every datagram byte- and "
                 "tick-exact); distinct non-trivial = distinct (kind, client, server) configurations")
     jobs = [(i, k, c, s, ctx.rng.getrandbits(32)) for i, (k, c, s) in enumerate(cs)]
     drv = ctx.driver("C02")
@@ -452,7 +471,20 @@ def run(ctx):
             for what in bad:
                 ctx.violation("c06:%s:%s:%s" % (kind, c, s), what, {"kind": kind, "client": c, "server": s, "seed": seed,
                               "how": "harness/corr_C06.py work((0, kind, client, server, seed))"})
-            if sess is not None and kind == "sameaddr":
+            for t in (getattr(sess, "c06_tags", None) or []):
+                ctx.tag(t)
+            if sess is not None and kind == "wfault":
+                how = getattr(sess, "c06_replay", None)
+                if how == "udp":
+                    r = l1_corr.compare(drv, sess, "x")
+                    ctx.tag("wfault:l1-replay")
+                elif how == "lite":
+                    r = l1_stream.compare(drv, sess, "x")
+                    if not r.get("skipped"):
+                        ctx.tag("l1-stream-replay"); ctx.tag("wfault:l1-replay")
+                else:
+                    r = {"ok": True, "diffs": [], "skipped": True}
+            elif sess is not None and kind == "sameaddr":
                 r = c06_sameaddr.l1_compare(drv, sess)       # the SERVER transport of the whole visitor sequence through the L1 model
             elif sess is not None and (kind in ("grid", "versions", "crafted") or (kind == "race" and sess.cfg.transport == "udp")):
                 r = l1_corr.compare(drv, sess, "x")
